@@ -2,6 +2,13 @@
 #include VERIF_SRC
 #ifdef H_GETDATA
 void h_vf_get_data(void) { OggVorbis_File *vf = malloc(sizeof *vf); __CPROVER_assume(vf->callbacks.read_func == NULL || vf->callbacks.read_func == verif_read_cb); _get_data(vf); }
+#elif defined(H_PREV)
+void h_vf_get_prev_page(void) { OggVorbis_File *vf = malloc(sizeof *vf); ogg_page *og = malloc(sizeof *og); ogg_int64_t begin; _get_prev_page(vf, begin, og); }
+#elif defined(H_PREVS)
+void h_vf_get_prev_page_serial(void) {
+  OggVorbis_File *vf = malloc(sizeof *vf); ogg_int64_t begin; long *list; int n; int *serialno = malloc(sizeof(int)); ogg_int64_t *granpos = malloc(sizeof(ogg_int64_t));
+  _get_prev_page_serial(vf, begin, list, n, serialno, granpos);
+}
 #else
 void h_vf_get_next_page(void) {
   OggVorbis_File *vf = malloc(sizeof *vf); ogg_page *og = malloc(sizeof *og); ogg_int64_t boundary;
